@@ -443,10 +443,16 @@ class Partitioner:
             rank, lambda expr: Symbol(part_rank.lower()) in expr.atoms(Symbol))
         sym_step = CoordAccess.build_expr(
             CoordAccess.isolate_rank(expr, part_rank))
+        # If the step is substituted into a larger expression (e.g., 2 * q),
+        # parenthesize it so that it keeps its meaning
+        sub_step = step
+        if isinstance(step, EBinOp) and sym_step != EVar(part_rank.lower()):
+            sub_step = EParens(step)
+
         rank_step = cast(
             Expression, TransUtils.sub_hifiber(
                 sym_step, EVar(
-                    part_rank.lower()), step))
+                    part_rank.lower()), sub_step))
 
         args.append(AJust(rank_step))
         args.append(AParam("depth", EInt(depth)))
